@@ -143,14 +143,15 @@ Changed == SelectSeq(PageSeq, LAMBDA p : Differs(p))
 FirstBroken == IF \E i \in DOMAIN Changed : need[Changed[i]].broken
                THEN CHOOSE i \in DOMAIN Changed : need[Changed[i]].broken /\ \A j \in 1..(i - 1) : ~need[Changed[j]].broken
                ELSE 0
-\* old rows removed, new rows added (one counter write per new ZID), the page committed.  Removing the old rows commits
-\* after every property link and every tag that becomes unused - how often is an accident of the page's content - so the
-\* observable is "one or more commits": runs of commits are squashed here and in the recorded traces alike.
+\* the page's old rows are removed and its new rows added (one counter write per new ZID) in ONE transaction, then the page
+\* is committed.  (Before the repair of C13's removal-commits-halfway finding the removal committed after every property link
+\* and every tag that became unused; runs of commits are still squashed here and in the recorded traces alike, so that
+\* consecutive pages without new notes read "one or more commits".)
 Commit == <<"commit", "db">>
 RECURSIVE Squash(_)
 Squash(s) == IF Len(s) <= 1 THEN s
              ELSE IF s[1] = Commit /\ s[2] = Commit THEN Squash(Tail(s)) ELSE << s[1] >> \o Squash(Tail(s))
-PageEffects(p) == << Commit >> \o [i \in 1..need[p].new |-> <<"w", "ids">>] \o << Commit >>
+PageEffects(p) == [i \in 1..need[p].new |-> <<"w", "ids">>] \o << Commit >>
 PageEvents(p) == (IF need[p].mod THEN << [k |-> "Mod", p |-> p] >> ELSE <<>>)
                  \o (IF need[p].new > 0 THEN << [k |-> "New", p |-> p] >> ELSE <<>>)
 
